@@ -358,18 +358,36 @@ func decodePoint(data []byte) string {
 }
 
 func decodePathOrPolygon(data []byte, oid int) string {
-	if len(data) < 5 {
-		return ""
+	// stored layout (what a heap tuple holds after the varlena header):
+	//   path:    int32 npts, int32 closed, int32 dummy, points from byte 12
+	//   polygon: int32 npts, BOX boundbox (32 bytes), points from byte 36
+	// a stored value is exactly its header plus 16 bytes per point
+	first := 12
+	if oid == OidPolygon {
+		first = 36
 	}
-	closed := data[0] != 0
-	npts := int(i32(data, 1))
-	if npts < 0 || len(data) < 5+npts*16 {
-		return ""
+	closed := false
+	npts := -1
+	if len(data) >= first {
+		if n := int(i32(data, 0)); n >= 0 && len(data) == first+n*16 {
+			npts, closed = n, oid == OidPath && i32(data, 4) != 0
+		}
+	}
+	if npts < 0 {
+		// send/recv layout: closed flag byte, int32 npts, points from byte 5
+		if len(data) < 5 {
+			return ""
+		}
+		first, closed = 5, data[0] != 0
+		npts = int(i32(data, 1))
+		if npts < 0 || len(data) < 5+npts*16 {
+			return ""
+		}
 	}
 
 	points := make([]string, npts)
 	for i := 0; i < npts; i++ {
-		points[i] = decodePoint(data[5+i*16 : 5+(i+1)*16])
+		points[i] = decodePoint(data[first+i*16 : first+(i+1)*16])
 	}
 
 	joined := strings.Join(points, ",")
